@@ -66,7 +66,15 @@ func (C12) Generate(c *Ctx, r *Rand, index int) *Scenario {
 		sc.Meta["name_class"] = "unusual"
 	}
 	frontMatter := false
-	if kind == 0 && rs.Chance(1, 6) {
+	jsonTarget := false
+	if kind == 0 && sc.MetaString("name_class") == "" && rs.Chance(1, 14) {
+		// a JSON file named as such, the input format given explicitly and the output format left to yq:
+		// whatever yq decides, -i must decide the same as the run without -i
+		target = Pick(rs, []string{"t.json", "t.JSON", "conf.json"})
+		docs = []string{GenJSONDoc(r.Fork("json"), DocID(r, 0, 0), false)}
+		jsonTarget = true
+		sc.Meta["json_target"] = true
+	} else if kind == 0 && rs.Chance(1, 6) {
 		// front matter: yaml block, then arbitrary text
 		frontMatter = true
 		target = "post.md"
@@ -141,6 +149,9 @@ func (C12) Generate(c *Ctx, r *Rand, index int) *Scenario {
 		if rs.Chance(1, 6) {
 			argv = append(argv, "-N")
 		}
+	}
+	if jsonTarget {
+		argv = append(argv, Pick(rs, []string{"-p=json", "-p=j", "--input-format=json"}))
 	}
 	argv = append(argv, "-i")
 	refusedWith := ""
